@@ -27,5 +27,23 @@ def queryFlows (m : Model α) (name : Option String) (ss ds : Strata) : List Nat
   let idx := if ds.length != 0 then idx.filter (fun fi => match fi.1.dst with | none => true | some c => c.hasStrata ds) else idx
   idx.map (·.2)
 
+
+/-- one end of `query_flows` (source or destination filter), after the repair recorded in `known_findings.json`: the reserved key `name`
+selects on the compartment name (a flow without that end is then dropped), the remaining keys are a strata filter which a flow without
+that end always passes -/
+def endFilter (flt : Strata) (endOf : Flow α → Option Comp) (flows : List (Flow α × Nat)) : List (Flow α × Nat) :=
+  if flt.length != 0 then
+    let rest := flt.filter (fun p => p.1 != "name")
+    let flows := match alookup flt "name" with
+      | some n => flows.filter (fun (f : Flow α × Nat) => match endOf f.1 with | some c => c.name == n | none => false)
+      | none => flows
+    flows.filter (fun f => match endOf f.1 with | none => true | some c => c.hasStrata rest)
+  else flows
+
+/-- `query_flows(model, flow_name, source, dest)` where the `source` / `dest` dicts may carry the key `name` -/
+def queryFlowsEnds (m : Model α) (name : Option String) (ss ds : Strata) : List Nat :=
+  let flows := m.flows.zipIdx.filter (fun fi => match name with | some n => fi.1.name == n | none => true)
+  (endFilter ds (fun f => f.dst) (endFilter ss (fun f => f.src) flows)).map (·.2)
+
 end
 end Summer.Query
